@@ -85,7 +85,8 @@ Sg == {"+", "-"}
 C03Cases == {[model |-> "mssm", signs |-> a \o b \o c, tb |-> t, spec |-> sp, conv |-> cv] :
                 a \in Sg, b \in Sg, c \in Sg, t \in {"low", "mid", "high", "huge"}, sp \in {"light", "heavy", "compressed", "split"}, cv \in {0, 1}}
          \cup {[model |-> "thdm", ytype |-> y, basis |-> b, offdiag |-> od, tb |-> t] :
-                y \in 1..6, b \in {"mass", "gauge"}, od \in {0, 1}, t \in {"small", "one", "mid", "large"}}
+                y \in 1..6, b \in {"mass", "gauge"}, od \in {0, 1, 2}, t \in {"small", "one", "mid", "large"}}
+         \* od: 0 flavour-diagonal, 1 dense lepton-flavour-violating Delta_l / Pi_l, 2 sparse (single entries, exact zeros elsewhere)
 
 ASSUME JsonSerialize(IOEnv.GEN_OUT, [C18 |-> C18Cases, C06 |-> C06Cases, C07 |-> C07Cases, C15 |-> C15Opts, C16 |-> C16Sets, C19 |-> C19Scheds, C08 |-> C08Cases, C09 |-> C09Cases, C10 |-> C10Cases, C20 |-> C20Cases, C12 |-> C12Cases, C04 |-> C04Cases, C05 |-> C05Cases, C11 |-> AllCoincidencesC11, C01 |-> C01Cases, C02 |-> C02Cases, C03 |-> C03Cases])
 =============================================================================
